@@ -9,9 +9,10 @@ ops (JSON lists):
   ['wait', d]                       yield d
   ['yield', v]                      yield a non-number (stops rescheduling)
   ['play', r, clock, quant]         clock: None | 'sys' | 'app' | int index
+  ['sched', clock, delta, r]        clock.sched(delta, routine r)
   ['pause', r] ['resume', r] ['stop', r]
   ['tempo', c, v] ['beats', c, v] ['meter', c, v]
-  ['msg', tag]                      addr.send_msg('/m', tag)
+  ['msg', tag [, [lat, elem...]]]   addr.send_msg('/m', tag [, bundle-shaped list])
   ['bundle', lat, elems]            addr.send_bundle(lat, *elems); elems are
                                     ['/b', tag] or [sublat, elem...]
   ['cwait', k] ['csignal', k] ['ctest', k, bool] ['cunhang', k]
@@ -129,6 +130,11 @@ class Interp:
             if isinstance(q, list):
                 q = tuple(q)
             r.play(self.clock_of(op[2]), q)
+        elif k == 'sched':
+            # clock.sched(delta, routine): delta in the target clock's unit
+            # from the caller's logical time
+            c = self.clock_of(op[1]) or main.current_tt._clock
+            c.sched(op[2], self.routines[op[3]])
         elif k == 'pause':
             self.guard(who, op, self.routines[op[1]].pause)
         elif k == 'resume':
@@ -142,7 +148,10 @@ class Interp:
         elif k == 'meter':
             self.clocks[op[1]].beats_per_bar = op[2]
         elif k == 'msg':
-            self.addr.send_msg('/m', op[1])
+            import copy
+            # optional third item: a bundle-shaped list argument (completion
+            # message), sent inside the message as a blob
+            self.addr.send_msg('/m', op[1], *copy.deepcopy(op[2:]))
         elif k == 'bundle':
             import copy
             elems = copy.deepcopy(op[2])    # the case itself stays pristine
